@@ -16,6 +16,16 @@ enum Source {
     Memory(Arc<Mutex<HashMap<PathBuf, String>>>),
 }
 
+/// Returns true if the (normalized) path is under the given (normalized) location, where
+/// `.` is the location of every relative path.
+fn is_within(path: &Path, location: &Path) -> bool {
+    if location == Path::new(".") {
+        path.is_relative() && !path.starts_with("..")
+    } else {
+        path.starts_with(location)
+    }
+}
+
 impl Source {
     pub fn exists(&self, location: &Path) -> ResourceResult<bool> {
         match self {
@@ -32,7 +42,7 @@ impl Source {
                 let location = normalize_path(location);
 
                 data.iter()
-                    .any(|(path, _content)| path != &location && path.starts_with(&location))
+                    .any(|(path, _content)| path != &location && is_within(path, &location))
             }
         };
         Ok(is_directory)
@@ -99,7 +109,7 @@ impl Source {
                 let data = data.lock().unwrap();
                 let location = normalize_path(location);
                 let mut paths: Vec<_> = data.keys().map(normalize_path).collect();
-                paths.retain(|path| path.starts_with(&location));
+                paths.retain(|path| is_within(path, &location));
                 #[cfg(feature = "verif-hooks")]
                 crate::verif_hooks::reorder(&mut paths);
 
@@ -116,7 +126,7 @@ impl Source {
                 let data = data.lock().unwrap();
                 let location = normalize_path(location);
                 let mut paths: Vec<_> = data.keys().map(normalize_path).collect();
-                paths.retain(|path| path.starts_with(&location));
+                paths.retain(|path| is_within(path, &location));
                 #[cfg(feature = "verif-hooks")]
                 crate::verif_hooks::reorder(&mut paths);
 
